@@ -4,3 +4,7 @@ import TlxVerif.Props.C11
 #print axioms TlxVerif.C11.sem_wait_return
 #print axioms TlxVerif.C11.sem_no_lost_wakeup
 #print axioms TlxVerif.C11.sem_at_rest_no_stranded_waiter
+#print axioms TlxVerif.C11.barM_release_together
+#print axioms TlxVerif.C11.barM_action_by_last_arriver
+#print axioms TlxVerif.C11.barM_no_deadlock
+#print axioms TlxVerif.C11.barM_actions_total
